@@ -5,10 +5,10 @@ from hc_oracles import handshake_oracle, grammar_oracle, ep_crash_oracle, entry_
 
 PROP = "C07"
 COQ_FILE = "props/C07.v"
-THEOREMS = ['C07_server_connect_sound', 'C07_server_forged_ack_identity', 'C07_server_repeated_syn_identity', 'C07_version_refused', 'C07_config_refused', 'C07_refusal_reply', 'C07_client_connect_sound', 'C07_client_forged_syn_ack_identity', 'C07_client_duplicate_syn_ack_no_event', 'C07_client_error_sound', 'C07_agreement']
+THEOREMS = ['C07_server_connect_sound', 'C07_server_forged_ack_identity', 'C07_server_repeated_syn_identity', 'C07_version_refused', 'C07_config_refused', 'C07_refusal_reply', 'C07_client_connect_sound', 'C07_client_forged_syn_ack_identity', 'C07_client_duplicate_syn_ack_no_event', 'C07_client_error_sound', 'C07_agreement', 'C07_client_connect_history', 'C07_server_connect_history']
 USES_FLOATS = True
 NEEDS_RELEASE = False
-ASSUMPTIONS = ["proved per handler for ALL states and frames: Connect soundness on both sides, forged/stale/duplicated handshake frames are the identity, refusals with the matching error echoing the SYN's nonce, symmetric derivation of sequence numbers and limits. Guessing a 32-bit nonce is outside the logic (forged = different from the secret)", 'tie: forge/lifecycle/limits streams (raw peers forging every frame type with chosen nonces at every point)']
+ASSUMPTIONS = ["proved per handler for ALL states and frames: Connect soundness on both sides, forged/stale/duplicated handshake frames are the identity, refusals with the matching error echoing the SYN's nonce, symmetric derivation of sequence numbers and limits; and over WHOLE histories: a client reports Connect only in a step whose datagrams include a SYN+ACK echoing its own nonce (C07_client_connect_history), a server reports Connect for an address only in a step whose datagrams include, from that address, an ACK carrying a nonce the server has sent to that very address in a SYN+ACK (C07_server_connect_history, proofs/HandshakeHistory.v). Guessing a 32-bit nonce is outside the logic (forged = different from the secret)", 'tie: forge/lifecycle/limits streams (raw peers forging every frame type with chosen nonces at every point)']
 THEOREM_STATEMENTS = []
 QUICK = {"lifecycle": 40, "forge": 60, "limits": 60, "amplify": 60, "timers": 50}
 
